@@ -42,6 +42,14 @@ Inductive expr :=
 | ELitF (t : fty) (b : Z)         (* numeric literal of float type; b = IEEE-754 bit pattern of its value *)
 | EVar (i : nat)                  (* parameter / local, by index *)
 | ESVar (i : nat)                 (* stateful variable (declared with $=), by index *)
+| EGlob (t : ty) (z : Z)          (* reference to a global constant  NAME T := literal : its value
+                                     (signed, for integer types) / IEEE bit pattern (float types) *)
+| ECall (k : nat) (t : ty) (d : Z) (p q : nat) (body : expr) (a : expr) (b : option expr)
+                                  (* call h_k(a) / h_k(a, b) of the k-th helper function
+                                       func h_k(x T, y T = d) T { return body }
+                                     (d: default value, signed / bit pattern). In [body] the two
+                                     parameters are the variables p and q (fresh indices of the
+                                     caller's index space, beyond its real locals). *)
 | EParen (e : expr)               (* ( e ) *)
 | ENeg (e : expr)                 (* - e *)
 | ENot (e : expr)                 (* not e *)
@@ -82,10 +90,12 @@ Record func := {
   f_params : list ty;       (* locals 0 .. n-1 *)
   f_locals : list ty;       (* declared locals n .. , in declaration order *)
   f_ret : ty;
-  f_body : block
+  f_body : block;
+  f_virt : list ty;         (* types of the indices used for helper parameters (not WASM locals) *)
+  f_helpers : list (ty * Z * nat * nat * expr)   (* helper functions h_0, h_1, …: (T, default, p, q, body) *)
 }.
 
-Definition f_tys (f : func) : list ty := f_params f ++ f_locals f.
+Definition f_tys (f : func) : list ty := f_params f ++ f_locals f ++ f_virt f.
 
 (* ---- spec grammar: where parentheses are required ----
    Precedence of arc/docs/spec.md (highest first): 1 '^' (right assoc), 2 unary '-' 'not',
@@ -95,7 +105,7 @@ Definition f_tys (f : func) : list ty := f_params f ++ f_locals f.
    chain of the same logical operator is read left to right. *)
 Definition prec (e : expr) : nat :=
   match e with
-  | ELit _ _ | ELitF _ _ | EVar _ | ESVar _ | EParen _ | ECast _ _ => 0
+  | ELit _ _ | ELitF _ _ | EVar _ | ESVar _ | EGlob _ _ | ECall _ _ _ _ _ _ _ _ | EParen _ | ECast _ _ => 0
   | EPow _ _ => 1
   | ENeg _ | ENot _ => 2
   | EArith (AMul | ADiv | AMod) _ _ => 3
@@ -109,7 +119,9 @@ Definition is_or (e : expr) := match e with EOr _ _ => true | _ => false end.
 
 Fixpoint parens_ok (e : expr) : bool :=
   match e with
-  | ELit _ _ | ELitF _ _ | EVar _ | ESVar _ => true
+  | ELit _ _ | ELitF _ _ | EVar _ | ESVar _ | EGlob _ _ => true
+  | ECall _ _ _ _ _ body a b =>
+      parens_ok body && parens_ok a && match b with Some e => parens_ok e | None => true end
   | EParen e | ECast _ e => parens_ok e
   | ENeg a | ENot a => parens_ok a && Nat.leb (prec a) 2
   | EPow a b => parens_ok a && parens_ok b && Nat.leb (prec a) 0 && Nat.leb (prec b) 2
@@ -124,11 +136,26 @@ Fixpoint parens_ok (e : expr) : bool :=
    u8 operands, casts between any numeric types, literals must fit their type) ---- *)
 Definition tU8 := TI U8.
 
+(* a constant value of type t: in range (integers) / a bit pattern of the width (floats) *)
+Definition const_ok (t : ty) (z : Z) : bool :=
+  match t with
+  | TI it => in_range it z
+  | TF F32 => (0 <=? z) && (z <? 2 ^ 32)
+  | TF F64 => (0 <=? z) && (z <? 2 ^ 64)
+  end.
+
 Fixpoint type_of (tys : list ty) (sc : list nat) (e : expr) : option ty :=
   match e with
   | ELit t z => if (0 <=? z) && (z <=? imax t) then Some (TI t) else None
   | ELitF t b => if (0 <=? b) && (b <? 2 ^ (match t with F32 => 32 | F64 => 64 end)) then Some (TF t) else None
   | EVar i | ESVar i => if existsb (Nat.eqb i) sc then nth_error tys i else None
+  | EGlob t z => if const_ok t z then Some t else None
+  | ECall _ t d p q body a b =>
+      let is_t (o : option ty) := match o with Some t' => ty_eqb t t' | None => false end in
+      if const_ok t d && negb (Nat.eqb p q) && is_t (nth_error tys p) && is_t (nth_error tys q)
+         && is_t (type_of tys [p; q] body) && is_t (type_of tys sc a)
+         && match b with Some e => is_t (type_of tys sc e) | None => true end
+      then Some t else None
   | EParen a => type_of tys sc a
   | ENeg a => type_of tys sc a
   | ENot a => match type_of tys sc a with Some (TI U8) => Some tU8 | _ => None end
@@ -251,7 +278,7 @@ with returns_els (el : els) : bool :=
 Fixpoint pure_expr (e : expr) : bool :=
   match e with
   | ELit _ _ | ELitF _ _ | EVar _ => true
-  | ESVar _ => false
+  | ESVar _ | EGlob _ _ | ECall _ _ _ _ _ _ _ _ => false   (* outside the proved fragment *)
   | EParen a | ENeg a | ENot a | ECast _ a => pure_expr a
   | EPow a b | EArith _ a b | ECmp _ a b | EAnd a b | EOr a b => pure_expr a && pure_expr b
   end.
